@@ -21,7 +21,7 @@ def run(chk):
     prog, base = setup(chk)
     chk.bounds = ["all limb vectors with every limb <= 2^51+2^38 (the closed representation invariant of C09), both operands", "both build configurations {default amd64+gc, purego}"]
     chk.outside = ["arm64 assembly (fe_arm64.s: carryPropagate) - not the configuration of this sandbox", "limb vectors above the invariant (unreachable, C09)"]
-    chk.assumptions = ["amd64 semantics of MOVQ MULQ IMUL3Q ADDQ ADCQ SHLQ(2/3 operands) SHRQ ANDQ RET as implemented in sym/asm.py", "Int-LF encoding (products of input limbs are shared atoms on both sides)"]
+    chk.assumptions = ["amd64 semantics of MOVQ MULQ IMUL3Q ADDQ ADCQ SUBQ SBBQ SHLQ(2/3 operands) SHRQ ANDQ ORQ XORQ NOTQ NEGQ INCQ DECQ CMPQ, counted loops (JNZ...) and RET as implemented in sym/asm.py", "Int-LF encoding (products of input limbs are shared atoms on both sides)"]
     if not base.has_asm:
         chk.note_inconclusive("default configuration has no assembly feMul (unexpected on amd64)")
         return
